@@ -224,7 +224,7 @@ ARG_STRING = ["'1'", "'2'", "'3'", "'v'", "'w'", "'1 2'", "'x1'", "''", "'ab'", 
 def gen_case(ctx, cid, cls):
     r = ctx.rng
     xerces = cls == "xercesdom"
-    p_empty = 0.35 if cls == "emptyvals" else 0.0
+    p_empty = 0.35 if cls == "emptyvals" else 0.06
     ndocs = r.choice([1, 2, 2, 2, 3])
     big = cls == "deep"
     docs = [gen_doc(r, "mno"[i], p_empty, xerces, big) for i in range(ndocs)]
@@ -500,9 +500,9 @@ def parse_pass2(text):
     return out
 
 
-def in_class_K1(v):
-    """finding K-C15-1: node-set argument with more than one node, one of them with an empty string-value
-    (= not nodeset_arg_ok of coq/KeyDefs.v)"""
+def many_with_empty(v):
+    """node-set argument with more than one node, one of them with an empty string-value: the class of the
+    former finding K-C15-1 (repaired by /repo commit 2389026); counted, a failure in it is a VIOLATION"""
     typ, vals = v
     return typ == "N" and len(vals) > 1 and "" in vals
 
@@ -686,7 +686,9 @@ def evaluate(ctx, cases, exe, model):
                 K, B, C, V = e["K"], e["B"], e["C"], e["V"]
                 ctx.count("arg:%s" % ("string" if V[0] == "S" else "nodeset-%s" % ("0" if not V[1] else "1" if len(V[1]) == 1 else "many")))
                 ctx.count("result:%s" % ("empty" if not K else "1" if len(K) == 1 else "many"))
-                known = "K-C15-1" if in_class_K1(V) else None
+                known = None
+                if many_with_empty(V):
+                    ctx.count("arg:nodeset-many-with-empty-value")
                 desc = "probe %d: context %s (document %d), key('%s', %s) with argument values %r; declarations %s" % (
                     pi, p["ctx"], p["doc"], p["name"][1], p["arg"], V[1],
                     "; ".join("%s match=%s use=%s" % (d["name"][0], d["match"], d["use"]) for d in c["decls"] if d["name"] == p["name"]))
